@@ -185,3 +185,25 @@ Fixpoint run (p : list stmt) (s : state) : state * outcome :=
 (* the state a program starts in: no tag entered yet *)
 Definition init_state (h : hook) (kids : nat -> list child) : state :=
   mkState h (fun _ => HNone) kids [].
+
+(* ---- sessions: top-level statements interleaved with taking a copy of a tag ------------ *)
+(* copy.copy(T[src]) bound as the new tag T[dst] (Tag.__copy__, 683-690: every instance field
+   is shallow-copied: the child list is a new list with the same items, prev_displayhook is
+   the same function object or None).  T[src].tagify() is the same thing when no child needs
+   expanding (Tag.tagify = copy + children.tagify()).  dst is an index not used before. *)
+Inductive top := TStmt (st : stmt) | TCopy (src dst : nat).
+
+Definition copy_tag (src dst : nat) (s : state) : state :=
+  mkState (hook_ s)
+          (fun u => if Nat.eqb u dst then prev s src else prev s u)
+          (fun u => if Nat.eqb u dst then children s src else children s u)
+          (log s).
+
+Fixpoint run_top (l : list top) (s : state) : state * outcome :=
+  match l with
+  | [] => (s, Normal)
+  | TStmt st :: r =>
+    let (s', o) := run_stmt st s in
+    match o with Normal => run_top r s' | _ => (s', o) end
+  | TCopy src dst :: r => run_top r (copy_tag src dst s)
+  end.
